@@ -19,6 +19,8 @@ import Osmium.Lemmas.Escape
 import Osmium.Generated.Src
 import Osmium.Lemmas.SrcTieUtf8
 import Osmium.Lemmas.SrcTieEscStr
+import Osmium.Lemmas.SrcTieHex
+import Osmium.Lemmas.SrcTieEnc
 
 namespace Osmium.C14
 
@@ -316,6 +318,60 @@ example : Src.OplParserFunctions.opl_parse_escaped 9 ([0x31, 0x31, 0x31, 0x31, 0
     .thrown "osmium::opl_error" (0, []) := by decide +kernel
 example : Src.OplParserFunctions.opl_parse_string 20 ([0x61, 0x25, 0x32, 0x30, 0x25, 0x62, 0x3d, 0x63] ++ 0 :: []) 0 [] =
     .normal (6, [0x61, 0x20, 0x62]) () := by decide +kernel
+
+/-! ### the hex-digit writers of the OPL escaping (writer side: `out += hex_digits[…]`) -/
+
+/-- `append_2_hex_digits(out, value, lookup_hex)` (io/detail/string_util.hpp) appends the model's `Opl.hex2 value`, for every
+    value and every array in which `hex_digits` points at the table "0123456789abcdef" (`SrcTie.Hex.HexTable buf h`: the
+    sixteen bytes at index `h` are the model's `hexDigit 0 … 15`); both table reads are in bounds. -/
+theorem src_tie_append_2_hex_digits (buf : List UInt8) (h : Int) (hT : SrcTie.Hex.HexTable buf h) (out : List UInt8) (v : Nat) :
+    Src.StringUtil.append_2_hex_digits buf out (v : Int) h = .normal (out ++ Opl.hex2 v) () ∧
+    Src.StringUtil.append_2_hex_digits_defined buf out (v : Int) h = true :=
+  SrcTie.Hex.src_tie_append_2_hex_digits buf h hT out v
+
+/-- `append_min_4_hex_digits(out, value, lookup_hex)` appends the model's `Opl.hexMin4 value` (leading zeros of the four
+    high digits suppressed — `hexLead` —, the four low digits always); any fuel ≥ 5 suffices. -/
+theorem src_tie_append_min_4_hex_digits (buf : List UInt8) (h : Int) (hT : SrcTie.Hex.HexTable buf h) (out : List UInt8) (v fuel : Nat)
+    (hf : 5 ≤ fuel) :
+    Src.StringUtil.append_min_4_hex_digits fuel buf out (v : Int) h = .normal (out ++ Opl.hexMin4 v) () ∧
+    Src.StringUtil.append_min_4_hex_digits_defined fuel buf out (v : Int) h = true :=
+  SrcTie.Hex.src_tie_append_min_4_hex_digits buf h hT out v fuel hf
+
+-- non-vacuity: an array "A\0" followed by the table satisfies `HexTable` at index 2; U+1F680 is written as "1f680"
+example : SrcTie.Hex.HexTable ([0x41, 0] ++ "0123456789abcdef".toUTF8.toList) 2 := by
+  unfold SrcTie.Hex.HexTable; decide +kernel
+example : Src.StringUtil.append_min_4_hex_digits 5 ([0x41, 0] ++ "0123456789abcdef".toUTF8.toList) [] 0x1f680 2 =
+    .normal "1f680".toUTF8.toList () := by decide +kernel
+
+/-- `io::detail::append_utf8_encoded_string(out, data)` (io/detail/string_util.hpp: the OPL writer's escaping) for EVERY C
+    string — `s` free of NULs in front of its NUL, the array is `s ++ 0 :: t`, `data` the index `i` — and every contents of
+    `out`: the model's `Opl.escape` on the suffix is appended; an invalid lead byte leaves with `std::runtime_error`, a
+    truncated sequence with `std::out_of_range` (the string as far as it was built); the model's `oob` (a read behind the
+    NUL) does not occur, and the execution has no undefined behaviour: `strlen` finds the NUL, `next_utf8_codepoint` is
+    called with `end_ptr` = the NUL, `out.append(prev, data)` copies a range inside the string, the table reads stay
+    inside the literal.  The static table `lookup_hex = "0123456789abcdef"` is where `_lits` says (an extra parameter `h`:
+    the translation has ONE array); the pass-through test of the source is tied to the regenerated table `oplPass`
+    (`SrcTie.Enc.pass_iff`).  Fuel: the bytes left + 6. -/
+theorem src_tie_append_utf8_encoded_string (s t : List UInt8) (hs : ∀ c ∈ s, c ≠ 0) (i : Nat) (hi : i ≤ s.length) (h : Int)
+    (out : List UInt8) (hl : Src.StringUtil.append_utf8_encoded_string_lits (s ++ 0 :: t) out (i : Int) h = true) (fuel : Nat)
+    (hf : s.length - i + 6 ≤ fuel) :
+    (match Opl.escape (s.drop i) with
+     | .ok r => Src.StringUtil.append_utf8_encoded_string fuel (s ++ 0 :: t) out (i : Int) h = .normal (out ++ r) ()
+     | .error .invalid => ∃ r', Src.StringUtil.append_utf8_encoded_string fuel (s ++ 0 :: t) out (i : Int) h = .thrown "std::runtime_error" (out ++ r')
+     | .error .incomplete => ∃ r', Src.StringUtil.append_utf8_encoded_string fuel (s ++ 0 :: t) out (i : Int) h = .thrown "std::out_of_range" (out ++ r')
+     | .error .oob => False) ∧
+    Src.StringUtil.append_utf8_encoded_string_defined fuel (s ++ 0 :: t) out (i : Int) h = true := by
+  obtain ⟨h1, h2⟩ := SrcTie.Enc.src_tie_append_utf8_encoded_string_main s t hs i hi h out hl fuel hf
+  refine ⟨?_, h2⟩
+  cases hm : Opl.escape (s.drop i) with
+  | ok r => rw [hm] at h1; exact h1
+  | error e => rw [hm] at h1; cases e <;> exact h1
+
+-- non-vacuity: "a €" followed by its NUL and the table; the escaped form is "a%20%€"
+example : Src.StringUtil.append_utf8_encoded_string_lits ([0x61, 0x20, 0xe2, 0x82, 0xac] ++ 0 :: "0123456789abcdef\x00".toUTF8.toList) [] 0 6 = true := by
+  decide +kernel
+example : Src.StringUtil.append_utf8_encoded_string 11 ([0x61, 0x20, 0xe2, 0x82, 0xac] ++ 0 :: "0123456789abcdef\x00".toUTF8.toList) [] 0 6 =
+    .normal [0x61, 0x25, 0x32, 0x30, 0x25, 0x25, 0x32, 0x30, 0x61, 0x63, 0x25] () := by decide +kernel
 
 end SrcTies
 
